@@ -37,8 +37,21 @@ def run(ctx):
     for x in grows:
         if x["e"] == "reset":
             x["b"] = base + x["b"]
+    # burst stress: the same add / remove pairs many times back to back, racing the send loop for its lock (a callback that is
+    # deferred and overtaken by the next one leaves the stream saying "exists" with no provider left)
+    pair = [{"a": "added", "v": 1}, {"a": "removed", "v": 1}, {"a": "added", "v": 2}, {"a": "removed", "v": 2}, {"a": "added", "v": 1}, {"a": "removed", "v": 1}]
+    nstress = 30 if ctx.tier == "quick" else 400
+    spath0, strace = os.path.join(ctx.tmp, "access_stress.json"), os.path.join(ctx.tmp, "access_stress.ndjson")
+    json.dump([pair * 150] * nstress, open(spath0, "w"))      # 900 callbacks per round, no pause
+    ctx.go_run("access", ["-behaviours", spath0, "-out", strace, "-burstonly"], timeout=3000)
+    srows = vlib.read_ndjson(strace)[:-1]
+    base2 = base + max([x["b"] for x in grows if x["e"] == "reset"] + [0]) + 1
+    for x in srows:
+        if x["e"] == "reset":
+            x["b"] = base2 + x["b"]
+    ctx.cov["burst_stress_rounds"] = nstress
     nstrict = len(rows)
-    rows = rows + grows
+    rows = rows + grows + srows
     vlib.write_ndjson(tpath, rows)
     spath = tpath + ".strict"
     vlib.write_ndjson(spath, rows[:nstrict])
@@ -66,7 +79,9 @@ def run(ctx):
             for x in rows[:line]:
                 if x["e"] == "reset":
                     bi = x["b"]
-            if bi >= base:
+            if bi >= base2:
+                h, how = "150 x (add 1, remove 1, add 2, remove 2, add 1, remove 1) without pause", "burst stress round %d" % (bi - base2)
+            elif bi >= base:
                 h, how = (longb[bi - base] if bi - base < len(longb) else None), "gated sends"
             else:
                 h, how = (behs[bi // 2] if 0 <= bi // 2 < len(behs) else None), ("burst" if bi % 2 else "big-step")
